@@ -7,6 +7,7 @@ import (
 	"flag"
 	"fmt"
 	"os"
+	"runtime/debug"
 	"strings"
 
 	"verif/harness/internal/conc"
@@ -107,6 +108,40 @@ func main() {
 	if len(r.Violations) > 0 {
 		os.Exit(1)
 	}
+}
+
+// safely runs one case; a panic that escapes the per-call guards is classified by its origin: a
+// frame of the library under test on top of the stack is a C20 violation (the case is stored for
+// replay), anything else is a harness error (exit 2).
+func safely(res *rep.Result, what string, c interface{}, f func()) {
+	defer func() {
+		r := recover()
+		if r == nil {
+			return
+		}
+		stack := string(debug.Stack())
+		origin := ""
+		for _, l := range strings.Split(stack, "\n") {
+			l = strings.TrimSpace(l)
+			if strings.HasPrefix(l, "github.com/openconfig/") || strings.HasPrefix(l, "main.") || strings.HasPrefix(l, "verif/harness/") {
+				if strings.HasPrefix(l, "main.safely") || strings.Contains(l, "debug.Stack") {
+					continue
+				}
+				origin = l
+				break
+			}
+		}
+		if strings.HasPrefix(origin, "github.com/openconfig/ygot") {
+			fn := origin
+			if i := strings.Index(fn, "("); i > 0 {
+				fn = fn[:i]
+			}
+			res.Violate("C20", map[string]string{"conjunct": "panic", "where": fn, "in": what}, fmt.Sprintf("panic in %s (%s): %v", fn, what, r), c)
+			return
+		}
+		res.InfraErr("harness panic in %s: %v at %s", what, r, origin)
+	}()
+	f()
 }
 
 func readJSONFile(path string, v interface{}) error {
